@@ -2637,3 +2637,206 @@ func init() {
 	registry["C03"].Meta.Rules["C03.22"] = "a soft or external link is written as one: a LinkMessage built with a constant Type other than hard has constant Flags with bit 3 (link type field present) set (`TypeFieldBit & CharSetBit` is 0: the type byte is not written and every soft link reads back as a hard link to a nonsense address)"
 	registry["C03"].Rules = append(registry["C03"].Rules, func(c *Ctx, r *Result) { linkTypeFlagRule(c, r, "C03.22", 2) })
 }
+
+// ---- round 8, C08: LZF match verification, back-reference fields, shuffle element sizes ----
+
+// errorOnlyBlock: the block returns (directly or through jumps) with a non-nil last result.
+func errorOnlyBlock(b *ssa.BasicBlock, depth int) bool {
+	if depth > 3 || len(b.Instrs) == 0 {
+		return false
+	}
+	switch x := b.Instrs[len(b.Instrs)-1].(type) {
+	case *ssa.Return:
+		return len(x.Results) > 0 && !isNilConst(x.Results[len(x.Results)-1])
+	case *ssa.Jump:
+		return errorOnlyBlock(b.Succs[0], depth+1)
+	}
+	return false
+}
+
+func lzfEncoderRules(c *Ctx, r *Result) {
+	// C08.13: the minimum match is compared byte by byte
+	if fn := c.FnOpt("writer.lzfCompress"); fn == nil {
+		r.Undec("C08.13", "writer.lzfCompress#minimum-match-verified", "", "writer.lzfCompress not found")
+	} else {
+		fb := c.FB(fn)
+		// the match length starts at M
+		var m int64 = -1
+		type cmpT struct {
+			varPart string
+			k       int64
+		}
+		var cmps []cmpT
+		instrs(fn, func(in ssa.Instruction) {
+			if phi, ok := in.(*ssa.Phi); ok && strings.HasPrefix(phi.Comment, "matchLen") {
+				for _, e := range phi.Edges {
+					if k, isK := constInt(e); isK {
+						m = k
+					}
+				}
+			}
+			cmp, ok := in.(*ssa.BinOp)
+			if !ok || cmp.Op != token.EQL {
+				return
+			}
+			lx, okx := isLoad(cmp.X)
+			ly, oky := isLoad(cmp.Y)
+			if !okx || !oky {
+				return
+			}
+			ax, okx := lx.X.(*ssa.IndexAddr)
+			ay, oky := ly.X.(*ssa.IndexAddr)
+			if !okx || !oky || ax.X != ay.X {
+				return
+			}
+			dx, dy := fb.lin(ax.Index), fb.lin(ay.Index)
+			if dx.C != dy.C || len(dx.T) != 1 || len(dy.T) != 1 {
+				return
+			}
+			v := dx.clone()
+			v.C = 0
+			w := dy.clone()
+			w.C = 0
+			cmps = append(cmps, cmpT{fb.linString(v) + "~" + fb.linString(w), dx.C})
+		})
+		if m < 1 || len(cmps) == 0 {
+			r.Undec("C08.13", "writer.lzfCompress#minimum-match-verified", c.Pos(fn.Pos()), "initial match length or the byte comparisons were not recognised")
+		} else {
+			have := map[string]map[int64]bool{}
+			for _, x := range cmps {
+				if have[x.varPart] == nil {
+					have[x.varPart] = map[int64]bool{}
+				}
+				have[x.varPart][x.k] = true
+			}
+			best := 0
+			for _, ks := range have {
+				cnt := 0
+				for k := int64(0); k < m; k++ {
+					if ks[k] {
+						cnt++
+					}
+				}
+				if cnt > best {
+					best = cnt
+				}
+			}
+			r.Check(int64(best) == m, "C08.13", "writer.lzfCompress#minimum-match-verified", c.Pos(fn.Pos()), fmt.Sprintf("a match starts at length %d; %d of the byte pairs input[ref+k] == input[pos+k], k < %d, are compared before it is taken (two positions whose hash collides and whose first bytes agree are otherwise encoded as a copy of different bytes)", m, best, m))
+		}
+	}
+	// C08.14: both bytes of a back-reference carry the same offset
+	if fn := c.FnOpt("writer.appendBackref"); fn == nil {
+		r.Undec("C08.14", "writer.appendBackref#offset-in-both-bytes", "", "writer.appendBackref not found")
+	} else {
+		n := 0
+		for _, b := range fn.Blocks {
+			var hi, lo []ssa.Value
+			var pos ssa.Instruction
+			for _, in := range b.Instrs {
+				st, ok := in.(*ssa.Store)
+				if !ok {
+					continue
+				}
+				if _, isElem := st.Addr.(*ssa.IndexAddr); !isElem {
+					continue
+				}
+				var walk func(v ssa.Value, d int)
+				walk = func(v ssa.Value, d int) {
+					if d > 5 {
+						return
+					}
+					switch x := v.(type) {
+					case *ssa.Convert:
+						walk(x.X, d+1)
+					case *ssa.BinOp:
+						if k, isK := constInt(x.Y); isK {
+							switch {
+							case x.Op == token.SHR && k == 8:
+								hi = append(hi, x.X)
+								return
+							case x.Op == token.AND && k == 0xFF:
+								lo = append(lo, x.X)
+								return
+							}
+						}
+						walk(x.X, d+1)
+						walk(x.Y, d+1)
+					}
+				}
+				walk(st.Val, 0)
+				pos = in
+			}
+			if len(hi) == 0 && len(lo) == 0 {
+				continue
+			}
+			n++
+			ok := len(hi) == 1 && len(lo) == 1 && hi[0] == lo[0]
+			r.Check(ok, "C08.14", fmt.Sprintf("writer.appendBackref#offset-in-both-bytes-%d", n), c.InstrPos(pos), "the high bits in the control byte (v >> 8) and the low byte (v & 0xFF) of a back-reference are taken from the same value")
+		}
+		if n < 2 {
+			r.Undec("C08.14", "writer.appendBackref#offset-in-both-bytes", c.Pos(fn.Pos()), fmt.Sprintf("only %d back-reference emissions recognised", n))
+		}
+	}
+	// C08.15: the reader accepts every positive element size
+	if fn := c.FnOpt("core.applyShuffle"); fn == nil {
+		r.Undec("C08.15", "core.applyShuffle#accepts-every-positive-element-size", "", "core.applyShuffle not found")
+	} else {
+		n := 0
+		for _, b := range fn.Blocks {
+			ifi, ok := b.Instrs[len(b.Instrs)-1].(*ssa.If)
+			if !ok {
+				continue
+			}
+			cmp, ok := ifi.Cond.(*ssa.BinOp)
+			if !ok {
+				continue
+			}
+			k, isK := constInt(cmp.Y)
+			if !isK {
+				continue
+			}
+			// the compared value is the element size taken from the client data
+			cv, isConv := cmp.X.(*ssa.Convert)
+			if !isConv {
+				continue
+			}
+			if ld, isLd := isLoad(cv.X); !isLd {
+				continue
+			} else if _, isIdx := ld.X.(*ssa.IndexAddr); !isIdx {
+				continue
+			}
+			rejectTrue, rejectFalse := errorOnlyBlock(b.Succs[0], 0), errorOnlyBlock(b.Succs[1], 0)
+			if rejectTrue == rejectFalse {
+				continue
+			}
+			op := cmp.Op
+			if rejectFalse {
+				op = negate(op)
+			}
+			n++
+			// largest rejected value that is >= 1?
+			bad := false
+			switch op {
+			case token.LEQ:
+				bad = k >= 1
+			case token.LSS:
+				bad = k >= 2
+			case token.EQL:
+				bad = k >= 1
+			case token.GTR, token.GEQ, token.NEQ:
+				bad = true // a constant upper bound on the element size
+			}
+			r.Check(!bad, "C08.15", fmt.Sprintf("core.applyShuffle#accepts-every-positive-element-size-%d", n), c.InstrPos(cmp), fmt.Sprintf("the element size is refused when it is %s %d: the writer shuffles with any element size from 1 (int8 data) up", op, k))
+		}
+		if n < 1 {
+			r.Undec("C08.15", "core.applyShuffle#accepts-every-positive-element-size", c.Pos(fn.Pos()), "no rejection test on the element size recognised")
+		}
+	}
+}
+
+func init() {
+	registry["C08"].Meta.Rules["C08.13"] = "LZF copies only what it compared: in lzfCompress the match length starts at a constant M and all M byte pairs input[ref+k] == input[pos+k], k < M, are compared before the back-reference is emitted (with the third comparison a copy of the second, two triples that share two bytes and a hash bucket are encoded as equal: silently different content from both decoders)"
+	registry["C08"].Meta.Rules["C08.14"] = "a back-reference carries its offset: in every arm of appendBackref the value whose bits above 8 go into the control byte is the value whose low byte follows (length >> 8 for offset >> 8 drops the high offset bits: every short match more than 256 bytes back is copied from the wrong place)"
+	registry["C08"].Meta.Rules["C08.15"] = "the reader un-shuffles whatever the writer shuffled: the rejection tests of core.applyShuffle on the element size refuse only sizes below 1 (with <= 1 every chunk of an int8 dataset written with the shuffle filter fails to decode)"
+	registry["C08"].Rules = append(registry["C08"].Rules, lzfEncoderRules)
+}
